@@ -430,7 +430,11 @@ class Check:
                 if spec is not None:
                     rec["script"] = spec["script"]
                     rec["input"] = spec.get("input")
-                    res = run_replay(spec["script"], spec.get("input"), self.repo)
+                    rcache = self.__dict__.setdefault("_replay_cache", {})
+                    rkey = (hash(spec["script"]), json.dumps(spec.get("input"), sort_keys=True, default=str))
+                    if rkey not in rcache:
+                        rcache[rkey] = run_replay(spec["script"], spec.get("input"), self.repo)
+                    res = rcache[rkey]
                     rec["native"] = res
                     rec["confirmed"] = bool(res.get("violates"))
             except Exception as ex:  # noqa
